@@ -5,5 +5,5 @@ CONSTANTS
   Offsets = {0, 4, 8}
   MaxIdx = 15
 INVARIANTS TypeOK NeverForgetsNorInvents GetInPlace NoZeroBelowOffset HeadNotFullAfterSet MonitorEquiv
-PROPERTIES OffsetMonotone CompactKeepsGets PassedOnlySet
+PROPERTIES FunctionalFormsAgree OffsetMonotone CompactKeepsGets PassedOnlySet
 CHECK_DEADLOCK FALSE
